@@ -147,6 +147,7 @@ type vcontent struct {
 	uncleProb float64
 	offsets   []int64
 	replay    float64 // probability that a transaction slot re-uses a transaction of another branch
+	bulk      int     // this many plain transfers to fresh addresses per block (large trie commits)
 }
 
 var vRich = vcontent{txProb: 0.75, maxTx: 4, uncleProb: 0.25, offsets: []int64{-230, -200, -200, -100, 0, 0, 100, 1000}, replay: 0.35}
@@ -185,10 +186,20 @@ func (t *vtree) extend(rng *rand.Rand, parent *vblk, n int, ct vcontent, fixedOf
 			}
 		}
 		bg.SetCoinbase(common.BigToAddress(big.NewInt(int64(0xc0ffee00 + rng.Intn(3)))))
+		bg.SetExtra([]byte(fmt.Sprintf("v%d.%d", len(t.blocks), i))) // no two generated blocks are identical
 		if i == 0 {
 			for _, ftx := range t.forced {
 				bg.AddTx(ftx)
 			}
+		}
+		for j := 0; j < ct.bulk; j++ {
+			k := t.keys[j%len(t.keys)]
+			to := common.BigToAddress(new(big.Int).SetUint64(rng.Uint64() | 1<<40))
+			stx, err := types.SignTx(types.NewTransaction(bg.TxNonce(vaddr(k)), to, big.NewInt(1+int64(j)), 21000, big.NewInt(1e9), nil), signer, k)
+			if err != nil {
+				panic(err)
+			}
+			bg.AddTx(stx)
 		}
 		if rng.Float64() < ct.txProb {
 			ntx := 1 + rng.Intn(ct.maxTx)
